@@ -1742,7 +1742,34 @@ def __fn_args_to_py_ast(
     else:
         fn_body_ast.append(ast.Return(value=body_ast.node))
 
+    # Python rejects a function in which a name is used before the `global` statement
+    # declaring it, wherever that statement sits. A `def` emits its declaration right
+    # before its assignment, so code reading the Var earlier in the same function
+    # (including the `def`'s own init) would not compile: declare every such name at
+    # the top of the function as well. (Later repeats are dropped by the optimizer.)
+    if global_names := __global_names_declared_in(fn_body_ast):
+        fn_body_ast.insert(0, ast.Global(names=global_names))
+
     return fn_args, varg, fn_body_ast, fn_def_deps
+
+
+def __global_names_declared_in(body: Iterable[ast.AST]) -> list[str]:
+    """Return the names declared by `global` statements in the statements of a
+    function body, in order of appearance, leaving out the bodies of nested function
+    and class definitions."""
+    names: list[str] = []
+    pending = list(reversed(list(body)))
+    while pending:
+        node = pending.pop()
+        if isinstance(node, ast.Global):
+            names.extend(name for name in node.names if name not in names)
+        elif isinstance(
+            node, (ast.FunctionDef, ast.AsyncFunctionDef, ast.ClassDef, ast.expr)
+        ):
+            continue
+        else:
+            pending.extend(reversed(list(ast.iter_child_nodes(node))))
+    return names
 
 
 def __fn_decorator(
